@@ -11,5 +11,5 @@ s=s.replace(old,new,1 if "--all" not in sys.argv else -1)
 open(f,'w').write(s); print("MUT applied (occurrences:",n,")")
 PY
 [ $? -eq 0 ] || exit 3
-for c in "$@"; do (cd /verif && ./check $c --tier quick 2>&1 | grep -E "VIOLATION|KNOWN|HARNESS|tier=" | head -4); done
+for c in "$@"; do (cd /verif && ./check $c --tier quick 2>&1 | grep -E "VIOLATION|HARNESS|tier=" | cut -c1-160 | head -3); done
 cd /repo && git checkout -- . 
